@@ -64,17 +64,27 @@ def main():
             return meta
         os.remove(os.path.join(wt, demodir, "zz_seeded_demo_test.go"))
         suite = "go test -vet=off -count=1 -timeout 600s ./lang/... ./builtins/... ./utils/... ./config/... ./shell/... ./app/... ./integrations/... . 2>&1"
-        failed = None
-        for attempt in range(2):
-            rc, out = sh(suite, wt, timeout=3000)
-            fails = set(re.findall(r"^--- FAIL: (\w+)", out, re.M))
-            failed = fails - KNOWN_FAIL
-            meta["ran"].append(dict(cmd=suite, when="existing tests with change (attempt %d)" % (attempt + 1), rc=rc,
-                                    failing=sorted(fails), tail=out[-400:]))
-            if not failed and "panic:" not in out:
-                break
-        if failed or "panic:" in out:
-            meta["reason"] = "existing tests notice the change: %s" % sorted(failed)
+        rc, out = sh(suite, wt, timeout=3000)
+        fails = set(re.findall(r"^--- FAIL: (\w+)", out, re.M))
+        badpkgs = sorted(set(re.findall(r"^FAIL\s+(github.com/lmorg/murex\S*)", out, re.M)))
+        meta["ran"].append(dict(cmd=suite, when="existing tests with change", rc=rc, failing=sorted(fails), failing_packages=badpkgs, tail=out[-400:]))
+        # timing-sensitive tests fail under machine load: a failing package is re-run on its own
+        still = []
+        for bp in badpkgs:
+            rel = "./" + bp.replace("github.com/lmorg/murex", "").lstrip("/")
+            okp = False
+            for attempt in range(3):
+                c2 = "go test -vet=off -count=1 -timeout 600s %s 2>&1" % rel
+                rc2, out2 = sh(c2, wt, timeout=1500)
+                f2 = set(re.findall(r"^--- FAIL: (\w+)", out2, re.M)) - KNOWN_FAIL
+                meta["ran"].append(dict(cmd=c2, when="re-run alone (attempt %d)" % (attempt + 1), rc=rc2, failing=sorted(f2), tail=out2[-300:]))
+                if not f2 and "panic:" not in out2:
+                    okp = True
+                    break
+            if not okp:
+                still.append(bp)
+        if still:
+            meta["reason"] = "existing tests notice the change in: %s" % still
             return meta
         meta["confirmed"] = True
         return meta
